@@ -3,6 +3,7 @@ package main
 import (
 	"fmt"
 	"os"
+	"sync"
 	"sync/atomic"
 	"time"
 
@@ -125,4 +126,50 @@ func c20dbg(r *Run) {
 	}
 	fmt.Println("bad", bad)
 	os.Exit(0)
+}
+
+func init() { registry["C15GEN"] = c15GenDebug }
+
+// C15GEN: generator self-check: how many scopegen programs does the reference engine accept, and why not
+func c15GenDebug(r *Run) {
+	pool := r.Pool()
+	reasons := map[string]int{}
+	var mu sync.Mutex
+	n := 600
+	ok := 0
+	parallel(n, pool.Size(), func(i int) {
+		rng := newRng(r.Seed, fmt.Sprint("c15prog", i))
+		sloppy := i%3 != 0
+		module := !sloppy && i%6 == 0
+		g := newScopegen(rng, sgOpts{Sloppy: sloppy, Module: module, MaxDepth: 3 + rng.Intn(4)})
+		src := g.Program()
+		if !sloppy && !module {
+			src = "\"use strict\";\n" + src
+		}
+		goal := "script"
+		if module {
+			goal = "module"
+		}
+		pr, err := pool.Parse(src, goal, 0, "v8")
+		mu.Lock()
+		defer mu.Unlock()
+		if err != nil || pr.V8 == nil {
+			reasons["oracle"]++
+			return
+		}
+		if pr.V8.OK {
+			ok++
+			return
+		}
+		reasons[fmt.Sprintf("%s sloppy=%v", pr.V8.Err, sloppy)]++
+		if os.Getenv("VERIF_ALL") != "" && reasons[fmt.Sprintf("%s sloppy=%v", pr.V8.Err, sloppy)] == 1 {
+			os.WriteFile(fmt.Sprintf("/tmp/c15gen-%d.js", i), []byte(src), 0o644)
+			fmt.Printf("  sample /tmp/c15gen-%d.js: %s\n", i, pr.V8.Err)
+		}
+	})
+	r.Eval(n)
+	fmt.Printf("accepted %d of %d\n", ok, n)
+	for k, v := range reasons {
+		fmt.Printf("  %4d %s\n", v, k)
+	}
 }
